@@ -70,9 +70,43 @@ theorem allocEntry_prefix (s : Session) (es : List (Name × EntrySpec)) (st : Li
     · exact ⟨[p] ++ x, by rw [h]; simp⟩
     · exact ⟨x, by rw [h]⟩
 
+/-- a fold of steps each of which only appends to the first component only appends -/
+theorem foldl_prefix {α β γ : Type} (f : List α × γ → β → List α × γ) (hf : ∀ st b, ∃ e, (f st b).1 = st.1 ++ e)
+    (l : List β) (st : List α × γ) : ∃ e, (l.foldl f st).1 = st.1 ++ e := by
+  induction l generalizing st with
+  | nil => exact ⟨[], by simp⟩
+  | cons b l ih =>
+    obtain ⟨e1, h1⟩ := hf st b
+    obtain ⟨e2, h2⟩ := ih (f st b)
+    exact ⟨e1 ++ e2, by simp only [List.foldl_cons, h2, h1, List.append_assoc]⟩
+
+theorem regroup_spec (g : PVal) (st : List PropMap × List (Name × Ref)) (m : Name) :
+    regroup g st m = st ∨ ∃ p, regroup g st m = (st.1 ++ [p], aput st.2 m st.1.length) := by
+  unfold regroup
+  cases (aget? st.2 m).bind (fun r => st.1[r]?) with
+  | none => exact Or.inl rfl
+  | some p => exact Or.inr ⟨_, rfl⟩
+
+theorem regroup_prefix (g : PVal) (st : List PropMap × List (Name × Ref)) (m : Name) : ∃ e, (regroup g st m).1 = st.1 ++ e := by
+  rcases regroup_spec g st m with h | ⟨p, h⟩
+  · exact ⟨[], by rw [h]; simp⟩
+  · exact ⟨[p], by rw [h]⟩
+
+theorem applyGroups_prefix (gs : List (PVal × List Name)) (st : List PropMap × List (Name × Ref)) :
+    ∃ e, (applyGroups gs st).1 = st.1 ++ e := by
+  unfold applyGroups
+  exact foldl_prefix (fun st (g : PVal × List Name) => g.2.foldl (regroup g.1) st)
+    (fun st g => foldl_prefix (regroup g.1) (fun st m => regroup_prefix g.1 st m) g.2 st) gs st
+
+theorem loadState_prefix (s : Session) (es : List (Name × EntrySpec)) (gs : List (PVal × List Name)) :
+    ∃ e, (loadState s es gs).1 = s.params ++ e := by
+  obtain ⟨e1, h1⟩ := allocEntry_prefix s es (s.params, [])
+  obtain ⟨e2, h2⟩ := applyGroups_prefix gs (es.foldl (allocEntry s) (s.params, []))
+  exact ⟨e1 ++ e2, by unfold loadState; rw [h2, h1, List.append_assoc]⟩
+
 theorem params_prefix (T : STables) (s : Session) (op : SOp) : ∃ extra, (sstep T s op).params = s.params ++ extra := by
   cases op with
-  | load n es => exact allocEntry_prefix s es (s.params, [])
+  | load n es gs => exact loadState_prefix s es gs
   | define d bs => exact ⟨[], by simp [sstep]⟩
   | create i c sec => exact ⟨[], by simp [sstep]⟩
   | setprop i p pa k v => exact ⟨[], by simp [sstep]⟩
@@ -82,7 +116,7 @@ theorem params_prefix (T : STables) (s : Session) (op : SOp) : ∃ extra, (sstep
 
 theorem sections_prefix (T : STables) (s : Session) (op : SOp) : ∃ extra, (sstep T s op).sections = s.sections ++ extra := by
   cases op with
-  | load n es => exact ⟨[⟨n, (es.foldl (allocEntry s) (s.params, [])).2⟩], rfl⟩
+  | load n es gs => exact ⟨[⟨n, (loadState s es gs).2⟩], rfl⟩
   | define d bs => exact ⟨[], by simp [sstep]⟩
   | create i c sec => exact ⟨[], by simp [sstep]⟩
   | setprop i p pa k v => exact ⟨[], by simp [sstep]⟩
@@ -93,48 +127,72 @@ theorem sections_prefix (T : STables) (s : Session) (op : SOp) : ∃ extra, (sst
 theorem findSection_mem {s : Session} {sec : Name} {c : CfgSection} (h : s.findSection sec = some c) : c ∈ s.sections :=
   List.mem_of_find?_eq_some h
 
-/-- the entries of a section being loaded refer to `Param` objects that exist when the section is complete -/
-theorem allocEntry_bounded (s : Session) (hs : CfgBounded s) (es : List (Name × EntrySpec))
-    (st : List PropMap × List (Name × Ref)) (hlen : s.params.length ≤ st.1.length)
-    (hst : ∀ kr ∈ st.2, kr.2 < st.1.length) :
-    ∀ kr ∈ (es.foldl (allocEntry s) st).2, kr.2 < (es.foldl (allocEntry s) st).1.length := by
-  induction es generalizing st with
-  | nil => simpa using hst
-  | cons e es ih =>
-    simp only [List.foldl_cons]
-    rcases allocEntry_spec s st e with h | ⟨p, h⟩ | ⟨sec, key, c, r, hc, hk, h⟩
-    · rw [h]; exact ih st hlen hst
-    · rw [h]
-      apply ih
-      · exact Nat.le_trans hlen (by simp)
-      · intro kr hkr
-        simp only [List.mem_append, List.mem_singleton] at hkr
-        rcases hkr with h' | h'
-        · exact Nat.lt_of_lt_of_le (hst kr h') (by simp)
-        · subst h'; simp
-    · rw [h]
-      apply ih
-      · exact hlen
-      · intro kr hkr
-        simp only [List.mem_append, List.mem_singleton] at hkr
-        rcases hkr with h' | h'
-        · exact hst kr h'
-        · subst h'
-          exact Nat.lt_of_lt_of_le (hs c (findSection_mem hc) (key, r) (aget?_mem hk)) hlen
+/-- while a section is being loaded: the `Param` objects of the session are all there, and every entry collected so far
+refers to an existing one -/
+def LoadInv (s : Session) (st : List PropMap × List (Name × Ref)) : Prop :=
+  s.params.length ≤ st.1.length ∧ ∀ kr ∈ st.2, kr.2 < st.1.length
+
+theorem allocEntry_inv (s : Session) (hs : CfgBounded s) (st : List PropMap × List (Name × Ref)) (e : Name × EntrySpec)
+    (h : LoadInv s st) : LoadInv s (allocEntry s st e) := by
+  obtain ⟨hlen, hst⟩ := h
+  rcases allocEntry_spec s st e with h | ⟨p, h⟩ | ⟨sec, key, c, r, hc, hk, h⟩
+  · rw [h]; exact ⟨hlen, hst⟩
+  · rw [h]
+    refine ⟨Nat.le_trans hlen (by simp), ?_⟩
+    intro kr hkr
+    simp only [List.mem_append, List.mem_singleton] at hkr
+    rcases hkr with h' | h'
+    · exact Nat.lt_of_lt_of_le (hst kr h') (by simp)
+    · subst h'; simp
+  · rw [h]
+    refine ⟨hlen, ?_⟩
+    intro kr hkr
+    simp only [List.mem_append, List.mem_singleton] at hkr
+    rcases hkr with h' | h'
+    · exact hst kr h'
+    · subst h'
+      exact Nat.lt_of_lt_of_le (hs c (findSection_mem hc) (key, r) (aget?_mem hk)) hlen
+
+theorem regroup_inv (s : Session) (g : PVal) (st : List PropMap × List (Name × Ref)) (m : Name) (h : LoadInv s st) :
+    LoadInv s (regroup g st m) := by
+  obtain ⟨hlen, hst⟩ := h
+  rcases regroup_spec g st m with h | ⟨p, h⟩
+  · rw [h]; exact ⟨hlen, hst⟩
+  · rw [h]
+    refine ⟨Nat.le_trans hlen (by simp), ?_⟩
+    intro kr hkr
+    rcases mem_aput hkr with h' | h'
+    · have h2 : kr.2 = st.1.length := congrArg Prod.snd h'
+      rw [h2]; simp
+    · exact Nat.lt_of_lt_of_le (hst kr h') (by simp)
+
+theorem foldl_inv {σ β : Type} (P : σ → Prop) (f : σ → β → σ) (hf : ∀ st b, P st → P (f st b)) (l : List β) (st : σ)
+    (h : P st) : P (l.foldl f st) := by
+  induction l generalizing st with
+  | nil => exact h
+  | cons b l ih => exact ih _ (hf st b h)
+
+theorem loadState_inv (s : Session) (hs : CfgBounded s) (es : List (Name × EntrySpec)) (gs : List (PVal × List Name)) :
+    LoadInv s (loadState s es gs) := by
+  unfold loadState applyGroups
+  apply foldl_inv (LoadInv s)
+  · intro st g hst
+    exact foldl_inv (LoadInv s) _ (fun st m h => regroup_inv s g.1 st m h) g.2 st hst
+  · exact foldl_inv (LoadInv s) _ (fun st e h => allocEntry_inv s hs st e h) es _ ⟨Nat.le_refl _, by simp⟩
 
 theorem cfgBounded_step (T : STables) (s : Session) (op : SOp) (hs : CfgBounded s) : CfgBounded (sstep T s op) := by
   cases op with
-  | load n es =>
+  | load n es gs =>
     intro c hc kr hkr
     simp only [sstep, loadSection, List.mem_append, List.mem_singleton] at hc
-    obtain ⟨x, hx⟩ := allocEntry_prefix s es (s.params, [])
+    obtain ⟨x, hx⟩ := loadState_prefix s es gs
     rcases hc with hc | hc
     · have h1 : kr.2 < s.params.length := hs c hc kr hkr
-      have h2 : (sstep T s (.load n es)).params.length = s.params.length + x.length := by
+      have h2 : (sstep T s (.load n es gs)).params.length = s.params.length + x.length := by
         simp only [sstep, loadSection, hx, List.length_append]
       exact Nat.lt_of_lt_of_le h1 (by rw [h2]; exact Nat.le_add_right _ _)
     · subst hc
-      exact allocEntry_bounded s hs es (s.params, []) (Nat.le_refl _) (by simp) kr hkr
+      exact (loadState_inv s hs es gs).2 kr hkr
   | define d bs => exact hs
   | create i c sec => exact hs
   | setprop i p pa k v => exact hs
@@ -215,7 +273,7 @@ theorem findAuto_step_ne (T : STables) (s : Session) (op : SOp) (j : Name) (h : 
   | create i c sec =>
     have hij : (i == j) = false := h
     simp [sstep, Session.findAuto, List.find?_append, hij]
-  | load n es => rfl
+  | load n es gs => rfl
   | define d bs => rfl
   | setprop i p pa k v => rfl
   | addEnum i p m => rfl
